@@ -654,6 +654,23 @@ def cli_echo(cli, doc_text, via):
     """feed {"x": doc} and echo it; via = 'i' (-i flag) or 'stdin'; 'bare-i'/'bare-stdin': the document itself is
     the whole input (not an object: the CLI binds it to inputs.value_1)"""
     wrapped = '{"x":' + doc_text + "}"
+    if via.endswith("+o"):
+        # the outputs object goes to --output FILE, and an older, longer file is already there
+        import tempfile
+        fd, path = tempfile.mkstemp(prefix="c06_out_", suffix=".json", dir=c.BUILD)
+        stale = "#stale output of an earlier run# " + "x" * 8192 + "\n"
+        try:
+            with os.fdopen(fd, "w") as f:
+                f.write(stale)
+            if via == "i+o":
+                rc, _, err = run_cli(cli, ["-i", wrapped, "-o", path, ECHO])
+            else:
+                rc, _, err = run_cli(cli, ["-o", path, ECHO], stdin_text=wrapped)
+            with open(path, "rb") as f:
+                txt = f.read().decode("utf-8", "replace")
+            return rc, ("" if txt == stale else txt), err
+        finally:
+            os.unlink(path)
     if via == "i":
         return run_cli(cli, ["-i", wrapped, ECHO])
     if via == "bare-i":
@@ -1029,6 +1046,8 @@ def main(argv):
         via = "i" if i % 2 == 0 else "stdin"
         if d[0] != "o" and i % 5 == 4:
             via = "bare-" + via
+        elif i % 7 == 3:
+            via = via + "+o"
         jobs.append((d, text, via))
 
     def one(job):
@@ -1091,7 +1110,7 @@ def main(argv):
     res.streams["CLI"] = {"documents": len(jobs), "passed_both_legs": cli_ok,
                           "number_leaves_off_by_shipped_parser(F17)": cli_known17,
                           "documents_rejected_by_shipped_parser_overflow(F17)": cli_rejected17,
-                          "via": {v: sum(1 for j in jobs if j[2] == v) for v in ("i", "stdin", "bare-i", "bare-stdin")},
+                          "via": {v: sum(1 for j in jobs if j[2] == v) for v in ("i", "stdin", "bare-i", "bare-stdin", "i+o", "stdin+o")},
                           "fancy_text": sum(1 for i in range(len(jobs)) if i % 3 == 2)}
 
     # ---------------------------------------------------------------- search 3: nesting depth through the CLI
